@@ -45,7 +45,7 @@ class C04(CtxCheck):
         root = [("new", -1, False), ("enter", 0, False)]
         out = []
         for k, fk in (("Ad", "sync"), ("Ad", "async"), ("ABd", "sync"), ("BAd", "async"), ("ABx", "async"), ("Ad", "alambda"), ("ABd", "alambda"),
-                      ("Ad", "annot"), ("BAd", "annot")):
+                      ("Ad", "annot"), ("BAd", "annot"), ("Ad", "uobj"), ("ABd", "auobj")):
             f = ("op", 0, ("addf", k, fk, f"f:c0:{k}", "m"))
             out.append(root + [f])
             out.append(root + [f, ("new", 0, False), ("enter", 1, False)])
